@@ -223,6 +223,13 @@ func receiveScenario(k int) {
 	readSome := func(max int) {
 		for i := 0; i < max; i++ {
 			var from tcpip.FullAddress
+			if r.Chance(1, 4) {
+				// looking at the head of the queue (length prefix, scattered buffers) takes
+				// nothing away: the Read that follows still returns one whole datagram
+				bufs := [][][]byte{{make([]byte, 4)}, {make([]byte, 4), make([]byte, 2048)}, {make([]byte, 70000)}}[r.Intn(3)]
+				ep.Peek(bufs)
+				run.Count("peeks_before_read", 1)
+			}
 			v, _, e := ep.Read(&from)
 			if e != nil {
 				return
